@@ -34,7 +34,7 @@ VERIF = os.path.dirname(os.path.abspath(__file__))
 CRATE = os.path.join(VERIF, "kani")
 TARGET = os.path.join(CRATE, "target")
 WORK = os.path.join(VERIF, "work")
-EVID = os.path.join(VERIF, "evidence")
+EVID = os.environ.get("VERIF_EVIDENCE_DIR") or os.path.join(VERIF, "evidence")  # seeded/detect.sh redirects it
 REPLAYS = os.path.join(VERIF, "replays")
 KNOWN = os.path.join(VERIF, "known_findings.txt")
 REPO = "/repo"
@@ -749,6 +749,9 @@ def main():
     ap.add_argument("--list", action="store_true")
     ap.add_argument("--replay", default=None)
     ap.add_argument("--no-replay", action="store_true")
+    ap.add_argument("--timeout-cap", type=int, default=int(os.environ.get("VERIF_TIMEOUT_CAP", "0")),
+                    help="trial runs: cap every harness's solver timeout (seconds); 0 = use the declared ones")
+    ap.add_argument("--tier-only", action="store_true", help="with --tier thorough: only the thorough-tier harnesses")
     args = ap.parse_args()
     seed = int(os.environ.get("VERIF_SEED", "0"))
     t_start = time.time()
@@ -770,7 +773,12 @@ def main():
 
     prop = args.prop.upper()
     tiers = ("quick",) if args.tier == "quick" else ("quick", "thorough")
+    if args.tier_only:
+        tiers = (args.tier,)
     hs = [h for h in allh if h.prop == prop and h.tier in tiers]
+    if args.timeout_cap:
+        for h in hs:
+            h.timeout = min(h.timeout, args.timeout_cap)
     if args.only:
         pats = [x for x in args.only.split(",") if x]
         hs = [h for h in hs if any(x in h.name for x in pats)]
